@@ -107,6 +107,24 @@ def snake_to_camel(name: str) -> str:
 converter = cattrs.Converter()
 
 
+def _resolve_field_types(cls: type[Any]) -> None:
+    """Replace the string annotations of a dataclass's fields by the types they name.
+
+    cattrs resolves an annotation only when it is a string as a whole, and then without its Annotated extras: a
+    forward reference inside a container (`List["Node"]`) stays unresolved ("Unsupported type: ForwardRef"), and
+    the discriminator metadata of a sibling field is lost as soon as one field of the class is a quoted self reference.
+    """
+    if not dataclasses.is_dataclass(cls):
+        return
+    try:
+        hints = get_type_hints(cls, include_extras=True)
+    except Exception:  # nosec B110 - unresolvable names: leave the annotations to cattrs as before
+        return
+    for field in dataclasses.fields(cls):
+        if field.name in hints:
+            field.type = hints[field.name]
+
+
 def _make_dataclass_structure_fn(cls: type[T]) -> Any:
     """
     Create a structure function for a dataclass with automatic name transformation.
@@ -119,6 +137,7 @@ def _make_dataclass_structure_fn(cls: type[T]) -> Any:
         A function that cattrs can use to structure JSON into the dataclass,
         with automatic field name transformation.
     """
+    _resolve_field_types(cls)
     # Get field renaming map (JSON key → Python field name)
     field_overrides: dict[str, Any] = {}
     if dataclasses.is_dataclass(cls):
@@ -160,6 +179,7 @@ def _make_dataclass_unstructure_fn(cls: type[T]) -> Any:
         with field name transformation based on Meta.key_transform_with_dump.
         For user-defined dataclasses without Meta, Python field names are used as-is.
     """
+    _resolve_field_types(cls)
     # Get field renaming map (Python field name → JSON key)
     field_overrides: dict[str, Any] = {}
     if dataclasses.is_dataclass(cls):
